@@ -18,6 +18,7 @@ import (
 	"testing"
 	"testing/synctest"
 
+	"github.com/btcsuite/btcd/btcutil/v2"
 	"github.com/btcsuite/btcd/chainhash/v2"
 	"github.com/btcsuite/btcd/wire/v2"
 	"github.com/lightningnetwork/lnd/chainntnfs"
@@ -52,6 +53,12 @@ type Params struct {
 	Window   bool         `json:"window"`   // chain op inside the hint-read window of Register*
 	Split    bool         `json:"split"`    // client ops between ConnectTip and NotifyHeight
 	Stale    bool         `json:"stale"`    // rescan results computed at dispatch time (candidate label only)
+	// Relevant: the backend's "relevant transaction" feed (TxNotifier.ProcessRelevantSpendTx) is part of
+	// the alphabet: prs:<S> re-reports a spender that is on the active chain, pra:<X> announces the
+	// spenders of the NEXT block before ConnectTip (details above the notifier's height).
+	Relevant bool `json:"relevant,omitempty"`
+	// Lazy: clients do NOT read their channels after every notifier call; they read only at rd:<i>.
+	Lazy bool `json:"lazy,omitempty"`
 }
 
 // Stats are outcome-class counters shared by all worlds of a run.
@@ -59,14 +66,18 @@ type Stats struct {
 	Confirmed, NegativeConf, Updates, ConfDone atomic.Int64
 	Spend, SpendReorg, SpendDone               atomic.Int64
 	RescanFound, RescanNone, RescanNoop        atomic.Int64
-	HistoricalDispatches, ImmediateRegs        atomic.Int64
-	WindowOps, WindowChangedRead               atomic.Int64
-	IIChecked, IIAntecedent                    atomic.Int64
-	IVChecked, IVBound                         atomic.Int64
-	Cancels, Stops, OfflineConnects            atomic.Int64
-	NotifierCalls, HintCommits                 atomic.Int64
-	StaleCandidates                            atomic.Int64
-	ProbeStates, ProbeSkipped, ProbeSuffixes   atomic.Int64
+	// added axes: relevant-tx feed, lazy readers, matcher differential
+	RelevantKnown, RelevantAhead, RelevantDelivered atomic.Int64
+	LazyReads, LazyUnreadConfirmed, LazyUnreadNeg   atomic.Int64
+	MatcherScans, MatcherTxsTested, MatcherMatches  atomic.Int64
+	HistoricalDispatches, ImmediateRegs             atomic.Int64
+	WindowOps, WindowChangedRead                    atomic.Int64
+	IIChecked, IIAntecedent                         atomic.Int64
+	IVChecked, IVBound                              atomic.Int64
+	Cancels, Stops, OfflineConnects                 atomic.Int64
+	NotifierCalls, HintCommits                      atomic.Int64
+	StaleCandidates                                 atomic.Int64
+	ProbeStates, ProbeSkipped, ProbeSuffixes        atomic.Int64
 	// pair spaces (per-cell visibility of the coincidences the family exists for):
 	// operations that ended with two live registrations of DIFFERENT objects whose events
 	// sit in the same block / whose confirmations are both queued for the same height
@@ -96,6 +107,8 @@ type client struct {
 	heldWho string
 	needNeg bool
 	done    bool
+	// lazy readers only: a block containing the client's event was disconnected since its last read
+	removedSince bool
 }
 
 func (c *client) reqID() string { return c.spec.reqID() }
@@ -166,6 +179,7 @@ type world struct {
 	restarts      int
 	notifyPending uint32
 	pendingWindow string
+	announced     string // Relevant: block content announced through pra:, to be connected next
 	hist          []string
 	dead          bool
 	obs           []string
@@ -587,6 +601,10 @@ func (w *world) hintOK(c *client, h string) bool {
 
 func (w *world) chainOps() []string {
 	var out []string
+	if w.announced != "" {
+		// the announced block is the next chain event (truthful backend)
+		return []string{"con:" + w.announced}
+	}
 	for _, x := range w.p.Contents {
 		if w.contentOK(x) {
 			out = append(out, "con:"+x)
@@ -646,7 +664,28 @@ func (w *world) enabled() []string {
 			out = append(out, fmt.Sprintf("can:%d", i))
 		}
 	}
-	if w.notifyPending == 0 {
+	if w.p.Lazy {
+		for i, c := range w.clients {
+			if c.reg && w.unread(c) > 0 {
+				out = append(out, fmt.Sprintf("rd:%d", i))
+			}
+		}
+	}
+	if w.p.Relevant && w.notifyPending == 0 && w.announced == "" {
+		for _, o := range uni.obj {
+			for _, s := range o.spenders {
+				if b, _ := w.chain.find(s, 0, maxHeight); b != nil {
+					out = append(out, "prs:"+s)
+				}
+			}
+		}
+		for _, x := range w.p.Contents {
+			if len(contentTxs[x]) > 0 && w.contentOK(x) {
+				out = append(out, "pra:"+x)
+			}
+		}
+	}
+	if w.notifyPending == 0 && w.announced == "" {
 		if w.restarts < w.p.Restarts {
 			out = append(out, "stop")
 		}
@@ -732,6 +771,13 @@ func (w *world) do(a string) error {
 	case "can":
 		i, _ := strconv.Atoi(f[1])
 		w.cancel(i)
+	case "rd":
+		i, _ := strconv.Atoi(f[1])
+		w.lazyRead(i)
+	case "prs":
+		w.relevant(f[1], false)
+	case "pra":
+		w.relevant(f[1], true)
 	case "stop":
 		w.stop()
 	case "start":
@@ -747,6 +793,7 @@ func (w *world) do(a string) error {
 }
 
 func (w *world) connect(content string, withNotify bool) {
+	w.announced = ""
 	b := w.chain.mkBlock(content)
 	w.chain.connect(b)
 	if !w.up {
@@ -820,7 +867,7 @@ func (w *world) disconnect() {
 		return
 	}
 	for i, c := range w.clients {
-		if c.reg && c.needNeg {
+		if c.reg && c.needNeg && !w.p.Lazy {
 			kind := "NegativeConf"
 			if !c.spec.isConf() {
 				kind = "Reorg"
@@ -968,10 +1015,13 @@ func (w *world) rescanDone(id string, stale bool) {
 	switch {
 	case isConf:
 		det := w.chain.scanConfObj(obj, d.start, hi)
+		r := confReq(keyed, obj)
+		if w.matcherConf(id, r, d.start, hi, det); w.dead {
+			return
+		}
 		if stale {
 			det = d.snapConf
 		}
-		r := confReq(keyed, obj)
 		if det != nil && orphan {
 			w.feature("rescan-found-while-no-client/" + id)
 		}
@@ -985,10 +1035,13 @@ func (w *world) rescanDone(id string, stale bool) {
 		err, ok = w.call("UpdateConfDetails", func() error { return w.n.UpdateConfDetails(r, det) })
 	default:
 		det := w.chain.scanSpendObj(obj, d.start, hi)
+		r := spendReq(keyed, obj)
+		if w.matcherSpend(id, r, d.start, hi, det); w.dead {
+			return
+		}
 		if stale {
 			det = d.snapSpend
 		}
-		r := spendReq(keyed, obj)
 		if det != nil && orphan {
 			w.feature("rescan-found-while-no-client/" + id)
 		}
@@ -1087,7 +1140,7 @@ func (w *world) Probe() int {
 }
 
 func (w *world) probe() int {
-	if w.dead || !w.up || w.notifyPending != 0 {
+	if w.dead || !w.up || w.notifyPending != 0 || w.announced != "" {
 		return 0
 	}
 	has := false
@@ -1132,6 +1185,10 @@ func (w *world) probe() int {
 // was received against the reference chain. ctx is the notifier call that just
 // returned; removed is the block a DisconnectTip removed.
 func (w *world) drain(ctx string, removed *refBlock) {
+	if w.p.Lazy {
+		w.lazyAfter(ctx, removed)
+		return
+	}
 	for i, c := range w.clients {
 		if w.dead {
 			return
@@ -1200,7 +1257,7 @@ func (w *world) drainConf(i int, c *client, ctx string, removed *refBlock) {
 		w.nontrivial = true
 		w.st.NegativeConf.Add(1)
 		w.logf("client %d <- NegativeConf(%d)", i, v)
-		if ctx != "dis" || !blockHas(removed, o.txName) {
+		if (ctx != "rd" && (ctx != "dis" || !blockHas(removed, o.txName))) || (ctx == "rd" && !c.removedSince) {
 			w.violate("spurious-NegativeConf/"+tag+"/"+ctx,
 				fmt.Sprintf("client %d received NegativeConf during %q although no block containing the watched tx was disconnected (chain %s)", i, ctx, w.chain.String()))
 			return
@@ -1215,7 +1272,10 @@ func (w *world) drainConf(i int, c *client, ctx string, removed *refBlock) {
 			bh = d.BlockHash.String()[:8]
 		}
 		w.logf("client %d <- Confirmed(height %d, block %s, txindex %d)", i, d.BlockHeight, bh, d.TxIndex)
-		if c.held != 0 {
+		// (a lazy reader's unread reorg notice is taken back by the notifier when the tx is
+		// included again, so for it "the held block was disconnected since the last read" stands
+		// in for the notice)
+		if c.held != 0 && !(ctx == "rd" && c.removedSince) {
 			w.violate("iii-renewed-Confirmed-without-reorg-notice/"+tag+"/"+ctx,
 				fmt.Sprintf("client %d received Confirmed(height %d) while still holding an unretracted Confirmed(height %d)", i, d.BlockHeight, c.held))
 			return
@@ -1226,7 +1286,10 @@ func (w *world) drainConf(i int, c *client, ctx string, removed *refBlock) {
 			w.violate("i-Confirmed-but-not-on-chain/"+tag+"/"+ctx,
 				fmt.Sprintf("client %d was told the tx confirmed at %d, but it is not on the active chain %s", i, d.BlockHeight, w.chain.String()))
 			return
-		case w.chain.tip()-b.height+1 < c.spec.N:
+		case ctx != "rd" && w.chain.tip()-b.height+1 < c.spec.N:
+			// (a lazy reader may read a Confirmed that was sent at N confirmations after the
+			// tip dropped again without touching the tx's block: lnd does not retract then,
+			// for prompt readers neither)
 			w.violate("i-Confirmed-too-early/"+tag+"/"+ctx,
 				fmt.Sprintf("client %d (numConfs %d) was told confirmed with only %d confirmations on the active chain %s", i, c.spec.N, w.chain.tip()-b.height+1, w.chain.String()))
 			return
@@ -1237,6 +1300,9 @@ func (w *world) drainConf(i int, c *client, ctx string, removed *refBlock) {
 			return
 		}
 		c.held = d.BlockHeight
+	}
+	if ctx == "rd" && len(negs)+len(confs) > 0 {
+		c.removedSince = false
 	}
 }
 
@@ -1280,7 +1346,8 @@ func (w *world) drainSpend(i int, c *client, ctx string, removed *refBlock) {
 		w.nontrivial = true
 		w.st.SpendReorg.Add(1)
 		w.logf("client %d <- Reorg", i)
-		if ctx != "dis" || c.held == 0 || removed == nil || removed.height != c.held || !blockHas(removed, c.heldWho) {
+		if (ctx != "rd" && (ctx != "dis" || c.held == 0 || removed == nil || removed.height != c.held || !blockHas(removed, c.heldWho))) ||
+			(ctx == "rd" && !c.removedSince) {
 			w.violate("spurious-Reorg/"+tag+"/"+ctx,
 				fmt.Sprintf("client %d received Reorg during %q although the block of the spend it holds (%d) was not disconnected (chain %s)", i, ctx, c.held, w.chain.String()))
 			return
@@ -1295,7 +1362,7 @@ func (w *world) drainSpend(i int, c *client, ctx string, removed *refBlock) {
 			sh = d.SpenderTxHash.String()[:8]
 		}
 		w.logf("client %d <- Spend(height %d, spender %s)", i, d.SpendingHeight, sh)
-		if c.held != 0 {
+		if c.held != 0 && !(ctx == "rd" && c.removedSince) {
 			w.violate("iii-renewed-Spend-without-reorg-notice/"+tag+"/"+ctx,
 				fmt.Sprintf("client %d received Spend(height %d) while still holding an unretracted Spend(height %d)", i, d.SpendingHeight, c.held))
 			return
@@ -1313,6 +1380,9 @@ func (w *world) drainSpend(i int, c *client, ctx string, removed *refBlock) {
 			return
 		}
 		c.held, c.heldWho = b.height, who
+	}
+	if ctx == "rd" && reorgs+len(spends) > 0 {
+		c.removedSince = false
 	}
 }
 
@@ -1373,7 +1443,7 @@ func (w *world) endOfOp() {
 				}
 				w.st.IIAntecedent.Add(1)
 				w.nontrivial = true
-				if c.held == 0 {
+				if !w.holds(c) {
 					w.violate(fmt.Sprintf("ii-not-told-Confirmed/%s/n%d%s/%s", c.spec.Kind, c.spec.N, objTag(c.spec.Obj), w.lastKind()),
 						fmt.Sprintf("the tx has %d >= %d confirmations on the active chain %s, client %d's registration is complete, but it holds no Confirmed", w.chain.tip()-b.height+1, c.spec.N, w.chain.String(), i))
 					return
@@ -1385,7 +1455,7 @@ func (w *world) endOfOp() {
 				}
 				w.st.IIAntecedent.Add(1)
 				w.nontrivial = true
-				if c.held == 0 {
+				if !w.holds(c) {
 					w.violate(fmt.Sprintf("ii-not-told-Spend/%s%s/%s", c.spec.Kind, objTag(c.spec.Obj), w.lastKind()),
 						fmt.Sprintf("the outpoint is spent at %d on the active chain %s, client %d's registration is complete, but it holds no Spend", b.height, w.chain.String(), i))
 					return
@@ -1451,6 +1521,12 @@ func (w *world) describe() string {
 	fmt.Fprintf(&sb, "chain%s up=%v nfy=%d rst=%d cache{%s}", w.chain.String(), w.up, w.notifyPending, w.restarts, w.cacheDump())
 	for i, c := range w.clients {
 		fmt.Fprintf(&sb, " c%d{%s%s/%d reg=%v held=%d%s neg=%v done=%v}", i, c.spec.Kind, objTag(c.spec.Obj), c.spec.N, c.reg, c.held, c.heldWho, c.needNeg, c.done)
+		if w.p.Lazy && c.reg {
+			fmt.Fprintf(&sb, "{rs=%v unread=%s}", c.removedSince, w.peek(c))
+		}
+	}
+	if w.announced != "" {
+		fmt.Fprintf(&sb, " announced=%s", w.announced)
 	}
 	for _, id := range w.reqIDs() {
 		r := w.reqs[id]
@@ -1506,4 +1582,319 @@ func (w *world) Describe() string {
 	var s string
 	w.in(func() { s = w.describe() })
 	return s
+}
+
+// ---------------------------------------------------------------------------------
+// lazy readers (Params.Lazy)
+//
+// A lazy client reads its channels only at rd:<i>. TxNotifier keeps every send non-blocking
+// for such a client by taking back what it has not read (DisconnectTip drains an unread
+// Confirmed/Spend and one Update, re-inclusion drains an unread NegativeConf/Reorg). The
+// clauses are the same, evaluated on what the client HOLDS OR WOULD READ NOW:
+//   - no notifier call may block (the quiescence watchdog of call());
+//   - an unread Confirmed/Spend sitting in the channel is on the active chain with that
+//     chain's details (clause i at every state, by a non-destructive peek: the bubble is
+//     quiescent, the harness is the only reader, a value taken from a buffered channel and
+//     put back leaves the channel as it was);
+//   - clause (ii): N confirmations and complete registration => the client holds an
+//     unretracted notification or one is waiting in its channel;
+//   - clause (iii): the block of a notification the client has READ is disconnected => a
+//     reorg notice is waiting in its channel; a notice read at rd is legitimate iff a block
+//     containing the client's event was disconnected since its previous read.
+
+func (w *world) unread(c *client) int {
+	switch {
+	case c.conf != nil:
+		return len(c.conf.Confirmed) + len(c.conf.NegativeConf) + len(c.conf.Updates) + len(c.conf.Done)
+	case c.spend != nil:
+		return len(c.spend.Spend) + len(c.spend.Reorg) + len(c.spend.Done)
+	}
+	return 0
+}
+
+// peekConf / peekSpend: the unread Confirmed / Spend of a client, channel left unchanged.
+func peekConf(c *client) *chainntnfs.TxConfirmation {
+	if c.conf == nil {
+		return nil
+	}
+	select {
+	case v, ok := <-c.conf.Confirmed:
+		if ok {
+			c.conf.Confirmed <- v
+		}
+		return v
+	default:
+		return nil
+	}
+}
+
+func peekSpend(c *client) *chainntnfs.SpendDetail {
+	if c.spend == nil {
+		return nil
+	}
+	select {
+	case v, ok := <-c.spend.Spend:
+		if ok {
+			c.spend.Spend <- v
+		}
+		return v
+	default:
+		return nil
+	}
+}
+
+// peek renders the unread content the oracle will judge later (part of the key).
+func (w *world) peek(c *client) string {
+	if d := peekConf(c); d != nil {
+		bh := "<nil>"
+		if d.BlockHash != nil {
+			bh = d.BlockHash.String()[:8]
+		}
+		return fmt.Sprintf("C@%d/%s/%d", d.BlockHeight, bh, d.TxIndex)
+	}
+	if d := peekSpend(c); d != nil {
+		sh := "<nil>"
+		if d.SpenderTxHash != nil {
+			sh = d.SpenderTxHash.String()[:8]
+		}
+		return fmt.Sprintf("S@%d/%s", d.SpendingHeight, sh)
+	}
+	return "-"
+}
+
+// holds: the client holds an unretracted notification (or, lazy reader, one is waiting).
+func (w *world) holds(c *client) bool {
+	if !w.p.Lazy {
+		return c.held != 0
+	}
+	if c.held != 0 && !c.removedSince {
+		return true
+	}
+	if c.conf != nil {
+		return len(c.conf.Confirmed) == 1
+	}
+	return c.spend != nil && len(c.spend.Spend) == 1
+}
+
+// lazyAfter replaces drain for lazy readers: nothing is read.
+func (w *world) lazyAfter(ctx string, removed *refBlock) {
+	for i, c := range w.clients {
+		if w.dead {
+			return
+		}
+		if !c.reg {
+			continue
+		}
+		o := &uni.obj[c.spec.Obj]
+		tag := fmt.Sprintf("%s/n%d%s", c.spec.Kind, c.spec.N, objTag(c.spec.Obj))
+		if removed != nil {
+			hit := false
+			if c.spec.isConf() {
+				hit = blockHas(removed, o.txName)
+			} else {
+				for _, sp := range o.spenders {
+					hit = hit || blockHas(removed, sp)
+				}
+			}
+			if hit {
+				c.removedSince = true
+			}
+		}
+		switch {
+		case c.conf != nil:
+			if c.needNeg {
+				if len(c.conf.NegativeConf) == 0 {
+					w.violate("iii-no-reorg-notice/"+tag+"/lazy", fmt.Sprintf("client %d has read a Confirmed for block %d which was just disconnected, and no NegativeConf is waiting for it", i, c.held))
+					return
+				}
+				// the retraction is issued: what the client has read no longer counts as held
+				// (whether it reads the notice or the notifier takes it back at re-inclusion)
+				c.needNeg, c.held = false, 0
+			}
+			if len(c.conf.NegativeConf) > 0 {
+				w.st.LazyUnreadNeg.Add(1)
+			}
+			d := peekConf(c)
+			if d == nil {
+				continue
+			}
+			w.st.LazyUnreadConfirmed.Add(1)
+			w.nontrivial = true
+			b, idx := w.chain.confOf(c.spec.Obj, 0, maxHeight)
+			switch {
+			case b == nil:
+				w.violate("i-unread-Confirmed-not-on-chain/"+tag+"/"+ctx,
+					fmt.Sprintf("an unread Confirmed(height %d) is waiting for client %d but the tx is not on the active chain %s", d.BlockHeight, i, w.chain.String()))
+				return
+			case d.BlockHeight != b.height || d.BlockHash == nil || *d.BlockHash != b.hash || d.Tx == nil || d.Tx.TxHash() != o.hT || d.TxIndex != uint32(idx):
+				w.violate("i-unread-Confirmed-wrong-details/"+tag+"/"+ctx,
+					fmt.Sprintf("an unread Confirmed(height %d) is waiting for client %d; the active chain has the tx at height %d (%s)", d.BlockHeight, i, b.height, w.chain.String()))
+				return
+			}
+		case c.spend != nil:
+			if c.needNeg {
+				if len(c.spend.Reorg) == 0 {
+					w.violate("iii-no-reorg-notice/"+tag+"/lazy", fmt.Sprintf("client %d has read a Spend for block %d which was just disconnected, and no Reorg is waiting for it", i, c.held))
+					return
+				}
+				c.needNeg, c.held, c.heldWho = false, 0, ""
+			}
+			if len(c.spend.Reorg) > 0 {
+				w.st.LazyUnreadNeg.Add(1)
+			}
+			d := peekSpend(c)
+			if d == nil {
+				continue
+			}
+			w.st.LazyUnreadConfirmed.Add(1)
+			w.nontrivial = true
+			b, who := w.chain.spendOf(c.spec.Obj, 0, maxHeight)
+			switch {
+			case b == nil:
+				w.violate("i-unread-Spend-but-unspent/"+tag+"/"+ctx,
+					fmt.Sprintf("an unread Spend(height %d) is waiting for client %d but the outpoint is unspent on the active chain %s", d.SpendingHeight, i, w.chain.String()))
+				return
+			case uint32(d.SpendingHeight) != b.height || d.SpenderTxHash == nil || *d.SpenderTxHash != txByName(who).TxHash():
+				w.violate("i-unread-Spend-wrong-details/"+tag+"/"+ctx,
+					fmt.Sprintf("an unread Spend(height %d) is waiting for client %d; the active chain has %s at height %d", d.SpendingHeight, i, who, b.height))
+				return
+			}
+		}
+	}
+}
+
+// lazyRead: client i reads everything that is waiting for it.
+func (w *world) lazyRead(i int) {
+	c := w.clients[i]
+	w.st.LazyReads.Add(1)
+	switch {
+	case c.conf != nil:
+		w.drainConf(i, c, "rd", nil)
+	case c.spend != nil:
+		w.drainSpend(i, c, "rd", nil)
+	}
+}
+
+// ---------------------------------------------------------------------------------
+// relevant-transaction feed (Params.Relevant): TxNotifier.ProcessRelevantSpendTx
+//
+// btcd/bitcoind/neutrino hand every "relevant" transaction of a block to the notifier on a
+// path that is not ordered with the block notifications: the transaction can arrive after
+// its block was connected (prs, a re-report of what is on the active chain) or before
+// (pra: the block at tip+1 is announced, then connected as the next chain event; client
+// operations may fall in between). The backend is truthful: what it reports is (about to
+// be) on the active chain at that height.
+
+func (w *world) relevant(arg string, ahead bool) {
+	names := []string{arg}
+	height := w.chain.tip() + 1
+	if ahead {
+		names = contentTxs[arg]
+		w.st.RelevantAhead.Add(1)
+	} else {
+		b, _ := w.chain.find(arg, 0, maxHeight)
+		height = b.height
+		w.st.RelevantKnown.Add(1)
+	}
+	for _, nm := range names {
+		if _, isConf := objOfTx(nm); isConf {
+			continue
+		}
+		tx := btcutil.NewTx(txByName(nm))
+		err, ok := w.call("ProcessRelevantSpendTx", func() error { return w.n.ProcessRelevantSpendTx(tx, height) })
+		if !ok {
+			return
+		}
+		if err != nil {
+			w.violate("error:ProcessRelevantSpendTx", fmt.Sprintf("ProcessRelevantSpendTx(%s, %d) failed: %v", nm, height, err))
+			return
+		}
+		w.logf("relevant tx %s reported for height %d (tip %d)", nm, height, w.chain.tip())
+		ctx := "prs"
+		if ahead {
+			ctx = "pra"
+		}
+		before := w.st.Spend.Load()
+		w.drain(ctx, nil)
+		if w.st.Spend.Load() != before {
+			w.st.RelevantDelivered.Add(1)
+		}
+		if w.dead {
+			return
+		}
+	}
+	if ahead {
+		w.announced = arg
+	}
+}
+
+// ---------------------------------------------------------------------------------
+// matcher differential: the historical scans of the real backends walk the blocks of the
+// dispatched range and decide per transaction with ConfRequest.MatchesTx /
+// SpendRequest.MatchesTx. The harness' scans are computed by name on the reference chain;
+// every one of them is repeated the backends' way with the real matcher and must agree.
+
+func (w *world) matcherConf(id string, r chainntnfs.ConfRequest, lo, hi uint32, ref *chainntnfs.TxConfirmation) {
+	w.st.MatcherScans.Add(1)
+	var (
+		fh uint32
+		fi int
+	)
+scan:
+	for _, b := range w.chain.blocks {
+		if b.height < lo || b.height > hi {
+			continue
+		}
+		for i, tx := range b.block.Transactions() {
+			w.st.MatcherTxsTested.Add(1)
+			if r.MatchesTx(tx.MsgTx()) {
+				fh, fi = b.height, i
+				w.st.MatcherMatches.Add(1)
+				break scan
+			}
+		}
+	}
+	switch {
+	case ref == nil && fh == 0:
+	case ref != nil && fh == ref.BlockHeight && uint32(fi) == ref.TxIndex:
+	default:
+		w.violate("rescan-matcher-disagrees/"+id, fmt.Sprintf("ConfRequest.MatchesTx over [%d,%d] of %s selects height %d index %d; the reference scan says %v", lo, hi, w.chain.String(), fh, fi, ref))
+	}
+}
+
+func (w *world) matcherSpend(id string, r chainntnfs.SpendRequest, lo, hi uint32, ref *chainntnfs.SpendDetail) {
+	w.st.MatcherScans.Add(1)
+	var (
+		fh   uint32
+		ftx  *wire.MsgTx
+		fin  uint32
+		ferr error
+	)
+scan:
+	for _, b := range w.chain.blocks {
+		if b.height < lo || b.height > hi {
+			continue
+		}
+		for _, tx := range b.block.Transactions() {
+			w.st.MatcherTxsTested.Add(1)
+			ok, idx, err := r.MatchesTx(tx.MsgTx())
+			if err != nil {
+				ferr = err
+				break scan
+			}
+			if ok {
+				fh, ftx, fin = b.height, tx.MsgTx(), idx
+				w.st.MatcherMatches.Add(1)
+				break scan
+			}
+		}
+	}
+	switch {
+	case ferr != nil:
+		w.violate("rescan-matcher-error/"+id, fmt.Sprintf("SpendRequest.MatchesTx failed on a block of the active chain %s: %v", w.chain.String(), ferr))
+	case ref == nil && fh == 0:
+	case ref != nil && fh == uint32(ref.SpendingHeight) && ftx.TxHash() == *ref.SpenderTxHash && fin == ref.SpenderInputIndex:
+	default:
+		w.violate("rescan-matcher-disagrees/"+id, fmt.Sprintf("SpendRequest.MatchesTx over [%d,%d] of %s selects height %d input %d; the reference scan says %v", lo, hi, w.chain.String(), fh, fin, ref))
+	}
 }
